@@ -1,5 +1,356 @@
 package main
 
-func runCheck(repo, out, prop, tier string, timeout, seed int, verbose, keep bool) int {
-	return 2
+import (
+	"encoding/json"
+	"fmt"
+	"os"
+	"path/filepath"
+	"sort"
+	"strings"
+	"sync"
+	"time"
+)
+
+type knownFinding struct {
+	Property   string `json:"property"`
+	Obligation string `json:"obligation"`
+	Status     string `json:"status"` // known | fixed
+	Commit     string `json:"commit,omitempty"`
+	What       string `json:"what"`
 }
+
+type knownFile struct {
+	Findings []knownFinding `json:"findings"`
+}
+
+func loadKnown(root string) []knownFinding {
+	b, err := os.ReadFile(filepath.Join(root, "known_findings.json"))
+	if err != nil {
+		return nil
+	}
+	var kf knownFile
+	if json.Unmarshal(b, &kf) != nil {
+		return nil
+	}
+	return kf.Findings
+}
+
+type oblGroup struct {
+	Name      string
+	Func      string
+	Kind      string
+	Desc      string
+	Tags      []string
+	Instances []*Obligation
+	Cover     bool
+}
+
+func (g *oblGroup) status() string {
+	// cover: vacuous only if some instance is unsat
+	if g.Cover {
+		if g.Kind == "cover.any" {
+			for _, o := range g.Instances {
+				if o.Status != "unsat" {
+					return "ok"
+				}
+			}
+			return "vacuous"
+		}
+		for _, o := range g.Instances {
+			if o.Status == "unsat" {
+				return "vacuous"
+			}
+		}
+		return "ok"
+	}
+	worst := "unsat"
+	for _, o := range g.Instances {
+		switch o.Status {
+		case "sat":
+			return "sat"
+		case "unsat":
+		default:
+			worst = "unknown"
+		}
+	}
+	return worst
+}
+
+func runCheck(repo, out, prop, tier string, timeout, seed int, verbose, keep bool) int {
+	start := time.Now()
+	if prop == "" {
+		fmt.Fprintln(os.Stderr, "check: -property required")
+		return 2
+	}
+	if timeout == 0 {
+		timeout = 10
+		if tier == "thorough" {
+			timeout = 60
+		}
+	}
+	undecided := func(reason string) int {
+		fmt.Printf("UNDECIDED property=%s reason=%s\n", prop, strings.ReplaceAll(reason, "\n", " | "))
+		return 2
+	}
+	P, err := LoadProgram(repo)
+	if err != nil {
+		return undecided(err.Error())
+	}
+	tLoad := time.Since(start)
+	undec := []string{}
+	names := funcsForProperty(P.Contracts, prop)
+	for _, u := range P.Undecided {
+		undec = append(undec, u)
+	}
+	var lemmas []*Lemma
+	for _, l := range P.Contracts.Lemmas {
+		if hasTag(l.Tags, prop) {
+			lemmas = append(lemmas, l)
+		}
+	}
+	if len(names) == 0 && len(lemmas) == 0 {
+		return undecided("no contract is tagged with this property")
+	}
+	// generate obligations, one machine per function, in parallel
+	reports := make([]*FuncReport, len(names))
+	var wg sync.WaitGroup
+	sem := make(chan struct{}, 16)
+	for i, n := range names {
+		wg.Add(1)
+		go func(i int, n string) {
+			defer wg.Done()
+			sem <- struct{}{}
+			reports[i] = verifyFunc(P, n)
+			<-sem
+		}(i, n)
+	}
+	wg.Wait()
+	lemmaReps := make([]*FuncReport, len(lemmas))
+	for i, l := range lemmas {
+		lemmaReps[i] = verifyLemma(P, l)
+	}
+	reports = append(reports, lemmaReps...)
+	var obls []*Obligation
+	trusted := map[string]bool{}
+	contractsUsed := map[string]bool{}
+	var funcsInfo []map[string]interface{}
+	for _, r := range reports {
+		for _, p := range r.Problems {
+			undec = append(undec, r.Name+": "+p)
+		}
+		n := 0
+		for _, o := range r.Obls {
+			if hasTag(o.Tags, prop) {
+				obls = append(obls, o)
+				n++
+			}
+		}
+		for _, t := range r.Trusted {
+			trusted[t] = true
+		}
+		for _, c := range r.Contracts {
+			contractsUsed[c] = true
+		}
+		funcsInfo = append(funcsInfo, map[string]interface{}{"function": r.Name, "mode": r.Mode, "paths": r.Paths, "obligation_instances": n, "loops": r.Loops, "generation_ms": r.GenMS})
+	}
+	tGen := time.Since(start)
+	dir, err := os.MkdirTemp("", "govc-"+prop+"-")
+	if err != nil {
+		return undecided(err.Error())
+	}
+	if !keep {
+		defer os.RemoveAll(dir)
+	}
+	solveAll(obls, dir, timeout, tier == "thorough", seed, 16)
+	tSolve := time.Since(start)
+	if os.Getenv("GOVC_TIMING") != "" {
+		fmt.Fprintf(os.Stderr, "load %v gen %v solve %v\n", tLoad, tGen-tLoad, tSolve-tGen)
+	}
+	// group by obligation name
+	groups := map[string]*oblGroup{}
+	var order []string
+	for _, o := range obls {
+		g := groups[o.Name]
+		if g == nil {
+			g = &oblGroup{Name: o.Name, Func: o.Func, Kind: o.Kind, Desc: o.Desc, Tags: o.Tags, Cover: o.Cover}
+			groups[o.Name] = g
+			order = append(order, o.Name)
+		}
+		g.Instances = append(g.Instances, o)
+	}
+	sort.Strings(order)
+	known := loadKnown(out)
+	isKnown := func(name string) *knownFinding {
+		for i := range known {
+			if known[i].Property == prop && known[i].Obligation == name && known[i].Status == "known" {
+				return &known[i]
+			}
+		}
+		return nil
+	}
+	nViol := 0
+	discharged := 0
+	solverCount := map[string]int{}
+	var solverMS int64
+	var samples []map[string]interface{}
+	vacuous := []string{}
+	var knownLines []string
+	seenKnown := map[string]bool{}
+	replayDir := filepath.Join(out, "replay", prop)
+	for _, n := range order {
+		g := groups[n]
+		st := g.status()
+		var ms int64
+		for _, o := range g.Instances {
+			solverCount[o.Solver]++
+			solverMS += o.TimeMS
+			if o.TimeMS > ms {
+				ms = o.TimeMS
+			}
+		}
+		if len(samples) < 400 {
+			samples = append(samples, map[string]interface{}{"obligation": n, "kind": g.Kind, "clause": g.Desc, "instances": len(g.Instances), "result": st, "solver": g.Instances[0].Solver, "max_ms": ms})
+		}
+		switch st {
+		case "unsat", "ok":
+			discharged++
+			continue
+		case "vacuous":
+			vacuous = append(vacuous, n)
+			continue
+		}
+		if k := isKnown(n); k != nil {
+			if !seenKnown[n] {
+				seenKnown[n] = true
+				knownLines = append(knownLines, fmt.Sprintf("KNOWN-FINDING: property=%s %s: %s", prop, n, k.What))
+			}
+			continue
+		}
+		// violation
+		nViol++
+		var bad *Obligation
+		for _, o := range g.Instances {
+			if o.Status == "sat" {
+				bad = o
+				break
+			}
+		}
+		if bad == nil {
+			for _, o := range g.Instances {
+				if o.Status != "unsat" {
+					bad = o
+					break
+				}
+			}
+		}
+		rp := filepath.Join(replayDir, mangle(n)+".json")
+		confirmed, replayInfo := tryReplay(P, repo, bad, dir)
+		rec := map[string]interface{}{
+			"property": prop, "obligation": n, "function": g.Func, "clause": g.Desc, "solver_status": bad.Status,
+			"solver": bad.Solver, "model": bad.Model, "path": bad.Trail, "solver_output": truncate(bad.Output, 4000), "replay": replayInfo,
+		}
+		_ = writeJSON(rp, rec)
+		suffix := ""
+		if !confirmed {
+			suffix = " no-failing-input-found"
+		}
+		fmt.Printf("VIOLATION property=%s replay=%s%s\n", prop, rp, suffix)
+		if verbose {
+			fmt.Printf("  obligation %s: %s (%s)\n", n, g.Desc, bad.Status)
+		}
+	}
+	for _, l := range knownLines {
+		fmt.Println(l)
+	}
+	total := len(order)
+	tb := []string{}
+	for t := range trusted {
+		tb = append(tb, t)
+	}
+	sort.Strings(tb)
+	var cu []string
+	for c := range contractsUsed {
+		cu = append(cu, c)
+	}
+	sort.Strings(cu)
+	assumptions := append([]string{
+		"go/ssa + go/types (x/tools v0.29.0) represent the program; govc's SSA->SMT translation and memory model (DESIGN.md section 2)",
+		"solvers z3 4.8.12, z3 5.1.0, cvc5 1.0.3",
+		"slice/string lengths <= 2^48; distinct input slices of a function do not alias unless its contract says so",
+		"sequential proof per goroutine: values of lock-guarded fields are arbitrary at each acquisition; other shared fields are assumed stable (see C10)",
+	}, tb...)
+	for _, c := range cu {
+		assumptions = append(assumptions, "callee contract used modularly: "+c+" (its own obligations are discharged under the properties it is tagged with)")
+	}
+	ev := evidence{PropertyID: prop, Tier: tier, Seed: seed, Level: "proof", WallS: time.Since(start).Seconds(), Violations: nViol,
+		Assumptions: assumptions,
+		Coverage: map[string]interface{}{
+			"obligations":           total,
+			"discharged":            discharged + len(knownLines),
+			"discharged_by_solver":  discharged,
+			"known_findings":        len(knownLines),
+			"obligation_instances":  len(obls),
+			"checker_cmd":           fmt.Sprintf("bin/govc check -property %s -tier %s (per obligation: z3-new | z3 | cvc5 raced, timeout %ds)", prop, tier, timeout),
+			"trusted_base":          tb,
+			"functions_under_contract": funcsInfo,
+			"by_backend":            solverCount,
+			"solver_ms_total":       solverMS,
+			"samples":               samples,
+			"vacuity_alarms":        vacuous,
+			"undecided":             undec,
+			"integer_semantics":     "mode int: mathematical integers with signed-overflow obligations and explicit mod for unsigned wrap; mode bv: exact bit-vectors (per function, see functions_under_contract)",
+		}}
+	if err := writeJSON(filepath.Join(out, "evidence", prop+".json"), ev); err != nil {
+		fmt.Fprintln(os.Stderr, "writing evidence:", err)
+	}
+	if nViol > 0 {
+		return 1
+	}
+	if len(undec) > 0 {
+		return undecided(strings.Join(undec, " ;; "))
+	}
+	if len(vacuous) > 0 {
+		return undecided("vacuous contracts: " + strings.Join(vacuous, ", "))
+	}
+	fmt.Printf("OK property=%s obligations=%d discharged=%d known=%d functions=%d wall=%.1fs\n", prop, total, discharged, len(knownLines), len(names), time.Since(start).Seconds())
+	return 0
+}
+
+func verifyLemma(P *Program, l *Lemma) *FuncReport {
+	rep := &FuncReport{Name: "lemma " + l.Name, Loops: map[string]string{}}
+	fn := P.Funcs[l.FnName]
+	if fn == nil {
+		rep.Problems = append(rep.Problems, "lemma function missing")
+		return rep
+	}
+	fc := &FuncContract{Name: l.FnName, Mode: l.Mode, Loops: map[int]*LoopSpec{}}
+	m := newMachine(P, fn, fc)
+	rep.Mode = m.mode.String()
+	defer func() {
+		if e := recover(); e != nil {
+			rep.Problems = append(rep.Problems, fmt.Sprint(e))
+		}
+	}()
+	st := &State{heap: map[string]*Term{}, locks: map[string]int{}, chanQ: map[int][]chanQuery{}}
+	var args []Value
+	for _, p := range fn.Params {
+		v := m.ts.FreshValue("in."+p.Name(), p.Type())
+		m.assumeWellFormed(st, p.Type(), v)
+		m.inputLeaves(p.Name(), p.Type(), v)
+		args = append(args, v)
+	}
+	fr := &Frame{fn: fn, entry: map[string]Value{}, lets: map[string]Value{}}
+	st.frames = []*Frame{fr}
+	fr.env = nil
+	st.frames = nil
+	res := m.pureCallTop(st, fn, args)
+	o := &Obligation{Func: rep.Name, Name: "lemma." + l.Name, Kind: "lemma", Tags: l.Tags, Desc: l.Expr + "  [" + l.Line + "]", PC: st.pc, Goal: res.(*Term), ctx: m.ctx, Inputs: m.inputs}
+	rep.Obls = []*Obligation{o}
+	return rep
+}
+
+func (m *Machine) pureCallTop(st *State, fn interface{}, args []Value) Value {
+	panic(unsupported("lemmas not yet supported"))
+}
+
+// tryReplay is filled in by replay.go
